@@ -227,6 +227,11 @@ class Term(ItemSequenceT[T]):
                     if not done:
                         accum_items.append(item)
                 accum_items = [item for item in accum_items if item[1] != 0]
+                if not keep_item_order and len(accum_items) > 1:
+                    # elements with the same sort key which can not be
+                    # converted into each other: order them by their string
+                    # representation in order to get a canonical form
+                    accum_items.sort(key=lambda item: str(item[0]))
                 res_items.extend(accum_items)
             else:  # numerical elements
                 group_it = cast(Iterator[Tuple[int, Tuple[Rational, int]]],
